@@ -105,7 +105,7 @@ def run_case(w, rec, wl, wr, kw=None):
     import pedal.assertions.runtime as RT
     import functools
     fn = getattr(RT, FN[rec["a"]])
-    if kw:
+    if kw and kw != "inblock":
         fn = functools.partial(fn, **PRESENTATION[kw])
     if rec["a"].endswith("_exact"):
         fn = functools.partial(fn, exact_strings=True)
@@ -114,7 +114,16 @@ def run_case(w, rec, wl, wr, kw=None):
         left = w.S.call("raises") if rec["l"] == "err" else w.S.call("exits") if rec["l"] == "errx" else w.S.call(SAYER[rec["l"]])
         n0 = len(R.feedback)
         try:
-            fb = fn(left, OUT_TEXT[rec["r"]])
+            if kw == "inblock" and rec["l"] not in ("err", "errx"):
+                # the assertion is made inside an open block of commands, after a LATER execution of the block printed
+                # something else: it is still about what `left` printed
+                from pedal.sandbox.commands import CommandBlock
+                with CommandBlock():
+                    left = w.S.call(SAYER[rec["l"]])
+                    w.S.call(SAYER["o:ABC!" if rec["l"] != "o:ABC!" else "o:two"])
+                    fb = fn(left, OUT_TEXT[rec["r"]])
+            else:
+                fb = fn(left, OUT_TEXT[rec["r"]])
         except Exception as e:
             return {"observed": "raised", "detail": "%s: %s" % (type(e).__name__, e)}
         failing = bool(fb) and any(f is fb for f in R.feedback[n0:])
@@ -150,6 +159,8 @@ def replay_chunk(cases, extra):
                 wraps = [("proxy", "raw")]
             # one of the wrappings is repeated with a presentation keyword (which one rotates with the cell)
             extra = [(wraps[n % len(wraps)][0], wraps[n % len(wraps)][1], ["explanation", "context", "assertion"][n % 3])]
+            if rec["a"] in OUT_FAMILY:
+                extra.append(("proxy", "raw", "inblock"))
             if rec["a"] in ("equal", "not_equal"):
                 extra.append((wraps[(n + 1) % len(wraps)][0], wraps[(n + 1) % len(wraps)][1], ["delta_none", "exact_false"][n % 2]))
             for wl, wr, kw in [(a, b, None) for a, b in wraps] + extra:
